@@ -3,7 +3,7 @@
    `eval fuel st cur e` is the reference interpreter (Lang/Eval.v): st = all frames + printed
    output, cur = the current frame; results are (state, Val v | Sig s | OutOfFuel). *)
 From Coq Require Import ZArith String List Bool.
-From NV Require Import Lang.Syntax Lang.Eval Lang.Eval_proofs.
+From NV Require Import Lang.Syntax Lang.Eval Lang.Eval_proofs Lang.Eval_rules.
 Import ListNotations.
 Open Scope string_scope.
 Open Scope list_scope.
@@ -261,6 +261,85 @@ Theorem C05_yield_is_map_filter : forall n st cur x le g e xs (gf : val -> bool)
 Proof. exact yield_is_map_filter. Qed.
 Print Assumptions C05_yield_is_map_filter.
 
+(* one-statement blocks: (e) is e, (e;) runs e and yields null; signals pass *)
+Theorem C05_single_block_rule : forall n st cur e st1 r,
+  eval n st cur e = (st1, r) ->
+  eval (S n) st cur (ESeq [e] false) = (st1, r) /\
+  eval (S n) st cur (ESeq [e] true) = (st1, match r with Val _ => Val VNull | _ => r end).
+Proof. exact single_block_rule. Qed.
+Print Assumptions C05_single_block_rule.
+
+Theorem C05_trailing_semicolon_rule : forall n st cur es st1 v,
+  eval_seq (eval n) st cur es = (st1, Val v) ->
+  eval (S n) st cur (ESeq es true) = (st1, Val VNull) /\
+  eval (S n) st cur (ESeq es false) = (st1, Val v).
+Proof. exact trailing_semicolon_rule. Qed.
+Print Assumptions C05_trailing_semicolon_rule.
+
+(* a yielding loop ended by a plain break returns the prefix collected so far, by `break v`
+   returns v; elements after the breaking one are not visited *)
+Theorem C05_yield_break_rule : forall n st cur x le b pre el post (ef : val -> val) bv,
+  eval n st cur le = (st, Val (VList (pre ++ el :: post))) ->
+  pure_body n cur x b pre ef ->
+  (forall st' fr, nth_error (frames st') fr = Some (mkFrame (Some cur) [(x, el)]) ->
+     eval n st' fr b = (st', Sig (SBreak 0 bv))) ->
+  eval (S n) st cur (EFor [CIter x le] (FYield b)) =
+    (mkState (frames st ++ iter_frames cur x (pre ++ [el])) (out st),
+     Val (match bv with Some v => v | None => VList (map ef pre) end)).
+Proof. exact yield_break_rule. Qed.
+Print Assumptions C05_yield_break_rule.
+
+(* `continue` in a yielding loop skips exactly that element *)
+Theorem C05_yield_continue_rule : forall n st cur x le b xs (sel : val -> option val),
+  eval n st cur le = (st, Val (VList xs)) ->
+  (forall st' fr e, In e xs -> nth_error (frames st') fr = Some (mkFrame (Some cur) [(x, e)]) ->
+     eval n st' fr b = (st', match sel e with Some v => Val v | None => Sig (SContinue 0) end)) ->
+  eval (S n) st cur (EFor [CIter x le] (FYield b)) =
+    (mkState (frames st ++ iter_frames cur x xs) (out st),
+     Val (VList (flat_map (fun e => match sel e with Some v => [v] | None => [] end) xs))).
+Proof. exact yield_continue_rule. Qed.
+Print Assumptions C05_yield_continue_rule.
+
+(* the into reducers, for an effect-free body whose value is ef of the element *)
+Theorem C05_into_sum : forall n st cur x le b zs (ef : val -> val) xs,
+  eval n st cur le = (st, Val (VList xs)) -> pure_body n cur x b xs ef ->
+  map ef xs = map VInt zs ->
+  eval (S n) st cur (EFor [CIter x le] (FYieldInto b RSum)) =
+    (mkState (frames st ++ iter_frames cur x xs) (out st), Val (VInt (fold_right Z.add 0%Z zs))).
+Proof. exact into_sum. Qed.
+Print Assumptions C05_into_sum.
+
+Theorem C05_into_count_last_len : forall n st cur x le b (ef : val -> val) xs,
+  eval n st cur le = (st, Val (VList xs)) -> pure_body n cur x b xs ef ->
+  let st' := mkState (frames st ++ iter_frames cur x xs) (out st) in
+  eval (S n) st cur (EFor [CIter x le] (FYieldInto b RCount)) =
+    (st', Val (VInt (Z.of_nat (List.length (filter truthy (map ef xs)))))) /\
+  eval (S n) st cur (EFor [CIter x le] (FYieldInto b RLen)) = (st', Val (VInt (Z.of_nat (List.length xs)))) /\
+  eval (S n) st cur (EFor [CIter x le] (FYieldInto b RLast)) =
+    (st', match xs with [] => Sig (SThrow VErr) | _ => Val (last (map ef xs) VNull) end).
+Proof. exact into_count_last_len. Qed.
+Print Assumptions C05_into_count_last_len.
+
+Theorem C05_into_function : forall n st cur x le b fe fv (ef : val -> val) xs,
+  eval n st cur fe = (st, Val fv) ->
+  eval n st cur le = (st, Val (VList xs)) -> pure_body n cur x b xs ef ->
+  eval (S n) st cur (EFor [CIter x le] (FYieldInto b (RFun fe))) =
+    apply_val (eval n) (mkState (frames st ++ iter_frames cur x xs) (out st)) fv [VList (map ef xs)].
+Proof. exact into_function. Qed.
+Print Assumptions C05_into_function.
+
+(* into first stops at the first element: the others are not visited *)
+Theorem C05_into_first : forall n st cur x le b (ef : val -> val) xs,
+  eval n st cur le = (st, Val (VList xs)) ->
+  (forall el post, xs = el :: post -> pure_body n cur x b [el] ef) ->
+  eval (S n) st cur (EFor [CIter x le] (FYieldInto b RFirst)) =
+    match xs with
+    | [] => (st, Sig (SThrow VErr))
+    | el :: _ => (mkState (frames st ++ iter_frames cur x [el]) (out st), Val (ef el))
+    end.
+Proof. exact into_first. Qed.
+Print Assumptions C05_into_first.
+
 (* non-vacuity: a loop variable and a variable declared in the body are gone after the loop,
    the outer x is still 1 *)
 Example C05_example_scopes :
@@ -334,4 +413,19 @@ Example C05_example_selective_catch :
   (let r := run 20 (ETry (ETryP (ESeq [EPrim PPrint [EInt 1]; EThrow (EInt 5)] false) (CInt 0) (EPrim PPrint [EInt 2]))
                          "e" (EList [(false, EVar "e")])) in (snd r, out (fst r)))
   = (Val (VList [VInt 5]), [[VInt 1]]).
+Proof. reflexivity. Qed.
+
+(* blocks, break values of yield loops, continue, and the reducers on concrete programs *)
+Example C05_example_rules :
+  (let l := EList [(false, EInt 1); (false, EInt 2); (false, EInt 3)] in
+   let brk v := ESeq [EIf (EPrim PEq [EVar "x"; EInt 2]) v None; EPrim PMul [EVar "x"; EInt 10]] false in
+   snd (run 20 (EList [(false, ESeq [EInt 7] true); (false, ESeq [EInt 7] false);
+                       (false, EFor [CIter "x" l] (FYield (brk (EBreak 0 None))));
+                       (false, EFor [CIter "x" l] (FYield (brk (EBreak 0 (Some (EStr "s"))))));
+                       (false, EFor [CIter "x" l] (FYield (brk (EContinue 0))));
+                       (false, EFor [CIter "x" l] (FYieldInto (EVar "x") RSum));
+                       (false, EFor [CIter "x" l] (FYieldInto (EPrim PSub [EVar "x"; EInt 1]) RCount));
+                       (false, EFor [CIter "x" l] (FYieldInto (EVar "x") RLast));
+                       (false, EFor [CIter "x" l] (FYieldInto (ESeq [EPrim PPrint [EVar "x"]; EVar "x"] false) RFirst))])))
+  = Val (VList [VNull; VInt 7; VList [VInt 10]; VStr "s"; VList [VInt 10; VInt 30]; VInt 6; VInt 2; VInt 3; VInt 1]).
 Proof. reflexivity. Qed.
